@@ -431,6 +431,56 @@ struct SvCase {
     version: &'static str,
     /// also send a `Content-Length` header with this value *before* `Transfer-Encoding: chunked`
     clte: Option<usize>,
+    /// send over HTTP/2 (prior knowledge): a sized body when `chunks` is None, otherwise DATA
+    /// frames of those sizes and no content-length at all
+    h2: bool,
+}
+
+fn sv_run_h2(addr: std::net::SocketAddr, path: &str, c: &SvCase) -> Option<RawResponse> {
+    use http_body_util::BodyExt;
+    use hyper_util::rt::{TokioExecutor, TokioIo};
+    type Bx = http_body_util::combinators::BoxBody<bytes::Bytes, std::convert::Infallible>;
+    let rt = tokio::runtime::Builder::new_current_thread().enable_all().build().ok()?;
+    rt.block_on(async {
+        let tcp = tokio::net::TcpStream::connect(addr).await.ok()?;
+        let (mut sender, conn) =
+            hyper::client::conn::http2::handshake::<_, _, Bx>(TokioExecutor::new(), TokioIo::new(tcp)).await.ok()?;
+        let conn_task = tokio::spawn(conn);
+        let body: Bx = match &c.chunks {
+            None => http_body_util::Full::new(bytes::Bytes::from(c.body.clone())).boxed(),
+            Some(ch) => {
+                let mut frames: Vec<Result<hyper::body::Frame<bytes::Bytes>, std::convert::Infallible>> = Vec::new();
+                let mut rest: &[u8] = &c.body;
+                for n in ch {
+                    let k = (*n).min(rest.len());
+                    if k > 0 {
+                        frames.push(Ok(hyper::body::Frame::data(bytes::Bytes::copy_from_slice(&rest[..k]))));
+                    }
+                    rest = &rest[k..];
+                }
+                if !rest.is_empty() {
+                    frames.push(Ok(hyper::body::Frame::data(bytes::Bytes::copy_from_slice(rest))));
+                }
+                BodyExt::boxed(http_body_util::StreamBody::new(futures::stream::iter(frames)))
+            }
+        };
+        let req = http::Request::builder()
+            .method("PUT")
+            .uri(format!("http://localhost{}", path))
+            .header("content-type", "application/json")
+            .header("x-token", c.token.as_str())
+            .header("api-version", c.version)
+            .body(body)
+            .ok()?;
+        sender.ready().await.ok()?;
+        let rsp = tokio::time::timeout(std::time::Duration::from_secs(20), sender.send_request(req)).await.ok()?.ok()?;
+        let mut raw = RawResponse::default();
+        raw.status = rsp.status().as_u16();
+        raw.body = tokio::time::timeout(std::time::Duration::from_secs(20), rsp.into_body().collect()).await.ok()?.ok()?.to_bytes().to_vec();
+        raw.well_formed = true;
+        conn_task.abort();
+        Some(raw)
+    })
 }
 
 fn sv_run(addr: std::net::SocketAddr, c: &SvCase) -> Option<RawResponse> {
@@ -441,6 +491,15 @@ fn sv_run(addr: std::net::SocketAddr, c: &SvCase) -> Option<RawResponse> {
     } else {
         format!("/b/{}/o{}", c.kind, ov_label(c.ov))
     };
+    if c.h2 {
+        for _ in 0..3 {
+            if let Some(r) = sv_run_h2(addr, &path, c) {
+                return Some(r);
+            }
+            std::thread::sleep(std::time::Duration::from_millis(50));
+        }
+        return None;
+    }
     let hdrs = [
         ("content-type", "application/json"),
         ("x-token", c.token.as_str()),
@@ -551,7 +610,11 @@ fn sv_stream(out: &mut Out, id: &mut u64, rng: &mut Rng, thorough: bool) {
                     tok += 1;
                     // some chunked requests also carry a (smaller or equal) Content-Length in front
                     let clte = if chunks.is_some() && rep % 2 == 0 { Some(n.min(cap)) } else { None };
-                    cases.push(SvCase { kind, dflt, ov, via, n, chunks, body, token: format!("t{}-{}", dflt, tok), version, clte });
+                    // every third case once more over HTTP/2 (its own token: the handler's record is per token)
+                    if tok % 3 == 0 {
+                        cases.push(SvCase { kind, dflt, ov, via, n, chunks: chunks.clone(), body: body.clone(), token: format!("t{}-{}h", dflt, tok), version, clte: None, h2: true });
+                    }
+                    cases.push(SvCase { kind, dflt, ov, via, n, chunks, body, token: format!("t{}-{}", dflt, tok), version, clte, h2: false });
                 }
             }
         }
@@ -588,7 +651,7 @@ fn sv_stream(out: &mut Out, id: &mut u64, rng: &mut Rng, thorough: bool) {
                 ov_label(c.ov),
                 c.via,
                 c.n,
-                if c.clte.is_some() { "ct" } else if c.chunks.is_some() { "ch" } else { "cl" },
+                if c.h2 { if c.chunks.is_some() { "h2ch" } else { "h2cl" } } else if c.clte.is_some() { "ct" } else if c.chunks.is_some() { "ch" } else { "cl" },
                 c.chunks.as_ref().map(|v| csv(v)).unwrap_or("-".to_string())
             );
             let Some(r) = r else {
